@@ -264,6 +264,7 @@ func init() {
 	replays["counts"] = replayCounts
 	replays["bigscan"] = replayBigScan
 	replays["hugeblob"] = replayHugeBlob
+	replays["hugeblob-max"] = replayHugeBlobMax
 	checks["C05"] = checkC05
 }
 
@@ -893,6 +894,21 @@ func hugeBlobOnce(driver string, sizes []string) (bool, map[string]string) {
 	}
 	return obs["unique_blob_size"] != sum.String() || obs["max_blob_size"] != mx.String() ||
 		obs["max_expanded_blob_size"] != sum.String() || obs["max_expanded_blob_count"] != fmt.Sprint(len(sizes)), obs
+}
+
+func replayHugeBlobMax(c *Ctx, raw json.RawMessage) bool {
+	var rp struct {
+		Input struct {
+			Sizes []string `json:"sizes"`
+		} `json:"input"`
+	}
+	json.Unmarshal(raw, &rp)
+	drv := filepath.Join(c.Scratch, "apidrv-replay")
+	if err := buildAPIDriver(drv, ""); err != nil {
+		Infra("%v", err)
+	}
+	_, obs := hugeBlobOnce(drv, rp.Input.Sizes)
+	return obs["max_blob_size"] != "4294967295"
 }
 
 func replayHugeBlob(c *Ctx, raw json.RawMessage) bool {
